@@ -55,6 +55,9 @@ pub struct Slot<F> {
     pub flavours_used: u8,
     /// driver specific (request size, tag, deadline …)
     pub arg: u64,
+    /// if set, replaces `arg` and the node's `arg` in fingerprints (abstraction
+    /// of unbounded values in unbounded runs)
+    pub fp_arg: Option<u64>,
 }
 
 impl<F> Slot<F> {
@@ -71,6 +74,7 @@ impl<F> Slot<F> {
             polls: 0,
             flavours_used: 0,
             arg: 0,
+            fp_arg: None,
         }
     }
     pub fn live(&self) -> bool {
@@ -293,7 +297,7 @@ where
                 St::Done => 3,
             });
             f.add(s.woken() as u64);
-            f.add(s.arg);
+            f.add(s.fp_arg.unwrap_or(s.arg));
             f.add(order.iter().position(|(_, j)| *j == i).map_or(99, |p| p as u64));
             if let Some(info) = view.info_of(self.table, i as u8) {
                 f.add(info.state as u64);
@@ -308,7 +312,7 @@ where
                     7
                 };
                 f.add(rel);
-                f.add(info.arg);
+                f.add(s.fp_arg.unwrap_or(info.arg));
             }
             f.add(s.last_flavour as u64);
         }
@@ -587,4 +591,24 @@ pub fn inspect_and_check(
         }
     }
     view
+}
+
+/// Evidence: the drop matrix (poll state at drop x queue position x waker swapped before).
+pub fn count_drop(ctx: &mut Ctx, view: &View, table: u8, slot: u8, flavours_used: u8) {
+    let info = view.info_of(table, slot);
+    let pos = view.queued(table, slot);
+    let name = format!(
+        "drop[table={},state={},pos={},swapped={}]",
+        table,
+        info.map_or(9, |i| i.state),
+        match pos {
+            None => "unqueued",
+            Some((q, p)) if p == 0 && view.queues[q as usize].len() == 1 => "only",
+            Some((_, 0)) => "front",
+            Some((q, p)) if p + 1 == view.queues[q as usize].len() => "back",
+            _ => "middle",
+        },
+        (flavours_used == 3) as u8
+    );
+    ctx.count(&name, 1);
 }
